@@ -186,7 +186,7 @@ def compare_query(qid, qtext, impl, impl_parsed, model, k_from=None):
     for i in range(len(rows)):
         t = tuple(rs[k * i:k * i + k])
         itup[t] += 1
-        irows.setdefault(t, []).append([canon_json_value(v) for v in rows[i]])
+        irows.setdefault(t, []).append([canon_json_value(v) for v in rows[i]] if isinstance(rows[i], list) else ['<no row: %r>' % (rows[i],)])
     mtup = Counter(m['tuples'])
     if itup != mtup:
         dis.append('results differ: only-impl=%s only-model=%s (sizes %d/%d)' % (list((itup - mtup).items())[:1], list((mtup - itup).items())[:1], sum(itup.values()), sum(mtup.values())))
